@@ -153,21 +153,26 @@ def outcome (k : SolverKind) (c : SolverCfg) (_r : Route) : Except CfgErr Unit :
 def decimalPlaces (floorLog10 : Int) (maxDecimals : Nat) : Int :=
   max 0 (min (-floorLog10 + 1) (maxDecimals : Int))
 
+/-- the five loguru level names, as character lists (kernel-reducible, unlike `String` operations) -/
+def levelName (v : Int) : List Char :=
+  if v = 0 then ['E','R','R','O','R'] else if v = 1 then ['W','A','R','N','I','N','G'] else if v = 2 then ['I','N','F','O']
+  else if v = 3 then ['D','E','B','U','G'] else ['T','R','A','C','E']
+
 /-- `utils.logging.verbosity_to_loguru_level(verbose)`: `TypeError` for a non-integer, `ValueError` outside 0..4, else the
     level name (`isInt` = `isinstance(verbose, int)`) -/
-def loguruLevel (isInt : Bool) (v : Int) : Except CfgErr String :=
+def loguruLevel (isInt : Bool) (v : Int) : Except CfgErr (List Char) :=
   if !isInt then .error .typeError
   else if v < 0 ∨ v > 4 then .error .valueError
-  else .ok (if v = 0 then "ERROR" else if v = 1 then "WARNING" else if v = 2 then "INFO" else if v = 3 then "DEBUG" else "TRACE")
+  else .ok (levelName v)
 
 /-- the string branch of `Solver.set_verbosity`: upper-case the name (ASCII names), look it up, `ValueError` if unknown -/
-def verbosityOfName (s : String) : Except CfgErr Int :=
-  let u := s.toUpper
-  if u = "ERROR" then .ok 0 else if u = "WARNING" then .ok 1 else if u = "INFO" then .ok 2
-  else if u = "DEBUG" then .ok 3 else if u = "TRACE" then .ok 4 else .error .valueError
+def verbosityOfName (s : List Char) : Except CfgErr Int :=
+  let u := s.map Char.toUpper
+  if u = levelName 0 then .ok 0 else if u = levelName 1 then .ok 1 else if u = levelName 2 then .ok 2
+  else if u = levelName 3 then .ok 3 else if u = levelName 4 then .ok 4 else .error .valueError
 
 /-- `Solver.set_verbosity(level)`: the integer level stored in `solver.verbose` and the loguru level installed -/
-def setVerbosity (level : String ⊕ Int) : Except CfgErr (Int × String) :=
+def setVerbosity (level : List Char ⊕ Int) : Except CfgErr (Int × List Char) :=
   match level with
   | .inl name => do
       let v ← verbosityOfName name
